@@ -76,6 +76,13 @@ check("C18",
       "Coq proof (simulation by canonical rounds, induction) + extracted-model correspondence vs the Rust AsyncDriver",
       "DESIGN.md 5 C18")
 
+check("C11",
+      "Both buses are modelled as configuration-determined address-to-cell maps (read target, write target) over a store of cells; the maps transcribe PCE500Memory/MemoryBus (overlay order, handler/data/read-only rules, card slot, 24-bit mask, internal block kept at the top of the external array) and MemoryImage (canonical address, internal index, overlays, mirror, read-only ranges, and the multi-byte paths exactly as written). "
+      "Coq theorems: for ANY such maps read-after-write, frame, swallowed writes, alias agreement, and - by induction over arbitrary write sequences - every cell holds the last value written to it; 24-bit wrap and idempotent mirror fold; plain RAM reads and writes target the same canonical cell; no address ever targets a cell of a read-only overlay (ROM immutable), read-only ranges swallow; Rust internal and external cells are disjoint; little-endian composition for Python (all addresses) and Rust inside the internal block. Tied to both implementations by correspondence over random configurations.",
+      "Trusted: Coq kernel, extraction, harness drivers. Modelled not verified: pce500/memory.py + memory_bus.py, memory.rs load/store. Known findings: Python internal block aliases the top of external memory; Rust multi-byte accesses crossing the internal boundary or a mirror block edge are not byte compositions (refuted theorems in Props/C11_refuted.v). Keyboard/LCD overlays and the CPU-facing RuntimeBus are exercised elsewhere.",
+      "Coq proof (generic bus laws + induction over write sequences) + extracted-model correspondence vs Python and Rust",
+      "DESIGN.md 5 C11")
+
 NOT_APPLICABLE = {}
 
 def build():
